@@ -49,7 +49,11 @@ ExplicitPool == <<
     C("root", 23, 23, 25, 2, -10, 20, 1),  \* 27
     C("sens", 24, 24, 26, 0, -10, 20, 1),  \* 28  minimal payload: voting certificates without ISD-AS,
     C("reg",  24, 24, 27, 0, -10, 20, 1),  \* 29      same subject in both classes
-    C("root", 25, 25, 28, 3, -10, 20, 1)   \* 30      ISD 65535
+    C("root", 25, 25, 28, 3, -10, 20, 1),  \* 30      ISD 65535
+    \* every per-certificate rule also for certificates without ISD-AS attribute
+    C("reg",  26, 26, 29, 0, 1, 20, 1),    \* 31  no ISD-AS, starts after the TRC
+    C("sens", 27, 27, 30, 0, -10, 9, 1),   \* 32  no ISD-AS, ends before the TRC
+    C("reg",  24, 24, 31, 0, -10, 20, 2)   \* 33  no ISD-AS, subject of #29 in the same class
 >>
 
 \* 31..286: 256 further sensitive, 287..542: 256 further regular voting certificates (for quorum 255 / 256)
@@ -84,7 +88,7 @@ Muts ==
     [k : {"quorum"}, a : {-256, -1, 0, 1, 2, 3, 255, 256}, b : {0}] \cup
     [k : {"core", "auth"}, a : 1..Len(ASLists), b : {0}] \cup
     [k : {"reset"}, a : {0}, b : {0}] \cup
-    [k : {"addcert"}, a : 1..24, b : {0}] \cup
+    [k : {"addcert"}, a : (1..24) \cup {31, 32, 33}, b : {0}] \cup
     [k : {"delcert"}, a : 1..5, b : {0}] \cup
     [k : {"swapcert"}, a : 1..3, b : {19, 20, 17, 23, 6}]
 
